@@ -159,6 +159,10 @@ func (a *hactor) HandleMessage(from gen.PID, message any) error {
 		a.note(true, a.h.coqTarget(m.Alias), m.Reason)
 	case gen.MessageDownEvent:
 		a.note(true, a.h.coqTarget(m.Event), m.Reason)
+	case gen.MessageDownNode:
+		a.note(true, "(TNode "+string(m.Name)+")", gen.ErrNoConnection)
+	case gen.MessageExitNode:
+		a.note(false, "(TNode "+string(m.Name)+")", gen.ErrNoConnection)
 	}
 	return nil
 }
